@@ -149,6 +149,10 @@ func (c *ControlPlane) handleConn(ctx context.Context, lConn net.Conn) (err erro
 			return dnsErr
 		}
 		// Not DNS traffic (or failed to read as DNS) - fall through to normal TCP handling
+		// The detection read armed a deadline on the connection; it must not
+		// leak into the relay, where it would cut the connection a few seconds
+		// after it was accepted.
+		_ = lConn.SetReadDeadline(time.Time{})
 		// Wrap the connection to include buffered data that was peeked but not consumed
 		lConn = &bufioConn{Conn: lConn, reader: bufReader}
 	}
